@@ -219,20 +219,22 @@ func network(h *hx.H) {
 	{
 		h.Res.OracleEvals++
 		base := 960000
-		for i := 0; i < 3; i++ {
-			ls.AddTask(ctx, uuid.Nil, mkReq(base+i, 1, 70+i*1111))
+		const burst = 40
+		for i := 0; i < burst; i++ {
+			// payloads of different decimal lengths: the frames differ in size
+			ls.AddTask(ctx, uuid.Nil, mkReq(base+i, 1, 7*pow10(i%7)+i))
 		}
-		ok := wait("three back-to-back broadcast tasks did not all reach every collector", func() bool {
+		ok := wait("the back-to-back broadcast tasks did not all reach every collector", func() bool {
 			for _, c := range all {
 				n := 0
 				c.mu.Lock()
 				for _, g := range c.recv {
-					if g.task >= base && g.task < base+3 {
+					if g.task >= base && g.task < base+burst {
 						n++
 					}
 				}
 				c.mu.Unlock()
-				if n < 3 {
+				if n < burst {
 					return false
 				}
 			}
@@ -243,20 +245,20 @@ func network(h *hx.H) {
 			c.mu.Lock()
 			var seq []int
 			for _, g := range c.recv {
-				if g.task >= base && g.task < base+3 {
+				if g.task >= base && g.task < base+burst {
 					seq = append(seq, g.task-base)
-					if g.kind != 1 || g.payload != 70+(g.task-base)*1111 {
+					if g.kind != 1 || g.payload != 7*pow10((g.task-base)%7)+(g.task-base) {
 						fail("net-request-altered", fmt.Sprintf("collector %d got back-to-back task %d as kind %d payload %d", c.n, g.task, g.kind, g.payload))
 					}
 				}
 			}
 			c.mu.Unlock()
 			// (the order of the three among themselves is not part of the property: requests are handed over by a worker pool)
-			if ok && len(seq) != 3 {
-				fail("net-broadcast-count", fmt.Sprintf("collector %d got the three back-to-back tasks as %v", c.n, seq))
+			if ok && len(seq) != burst {
+				fail("net-broadcast-count", fmt.Sprintf("collector %d got the %d back-to-back tasks as %v", c.n, burst, seq))
 			}
 		}
-		for i := 0; i < 3; i++ {
+		for i := 0; i < burst; i++ {
 			ls.RemoveTask(taskID(base + i))
 		}
 		if !ok {
@@ -496,4 +498,12 @@ func subscribeWhileTaskCurrent(h *hx.H) {
 	}
 	ls.RemoveTask(taskID(a))
 	ls.RemoveTask(taskID(b))
+}
+
+func pow10(n int) int {
+	p := 1
+	for i := 0; i < n; i++ {
+		p *= 10
+	}
+	return p
 }
